@@ -1,6 +1,6 @@
 (* Non-vacuity: concrete graphs meeting the hypotheses of the C02 theorems. *)
 From V Require Import Common.Base C02.Graph C02.Order C02.SpecESM C02.Wrap C02.Resolve C02.ResolveSpec
-  C02.DataUrl C02.SpecDataUrl C02.OrderProofs C02.OrderEsmProofs C02.ResolveProofs C02.WrapProofs C02.DataUrlProofs C02.Emit C02.EmitProofs C02.ResolveChainProofs C02.ResolveDen C02.SpecDenProofs C02.StarHitsProofs C02.StarDenProofs C02.LinkDenProofs C02.ResolveStarsProofs.
+  C02.DataUrl C02.SpecDataUrl C02.OrderProofs C02.OrderEsmProofs C02.ResolveProofs C02.WrapProofs C02.DataUrlProofs C02.Emit C02.EmitProofs C02.ResolveChainProofs C02.ResolveDen C02.SpecDenProofs C02.StarHitsProofs C02.StarDenProofs C02.LinkDenProofs C02.ResolveStarsProofs C02.EvalOrder C02.EvalOrderProofs.
 
 (* diamond with a back edge: 1 -> 2,3 ; 2 -> 4 ; 3 -> 4 ; 4 -> 1 (cycle); file 0 is the runtime *)
 Definition ex_graph : graph :=
@@ -164,3 +164,25 @@ Example ex_stars_verdicts :
   /\ map (spec_verdict ex_stars 5) (m_imports (getm ex_stars 5))
   = [Some (VFound 4 0); Some VAmbiguous; Some VNull].
 Proof. vm_compute. split; reflexivity. Qed.
+
+(* mixed graph: ES entry 0 imports CommonJS 1 then ES module 2 and requests import(3);
+   1 requires CommonJS 4 and 1 again (cycle through 4); 3 (ES, wrapped: dynamically imported) imports 2?
+   no: 3 imports wrapped 5 *)
+Definition ex_mixed : egraph :=
+  [ mkEmod true false [1; 2]%nat [] [3%nat] false;
+    mkEmod false false [] [4%nat] [] true;
+    mkEmod true false [] [] [] false;
+    mkEmod true false [5%nat] [] [] true;
+    mkEmod false false [] [1%nat] [] true;
+    mkEmod true false [] [] [] true ].
+Example ex_mixed_consistent : wrap_consistent ex_mixed = true.
+Proof. vm_compute. reflexivity. Qed.
+Example ex_mixed_trace :
+  native_trace ex_mixed 0 = Some [EvStart 1; EvStart 4; EvEnd 4; EvEnd 1; EvStart 2; EvEnd 2; EvStart 0; EvEnd 0; EvStart 5; EvEnd 5; EvStart 3; EvEnd 3]
+  /\ bundle_trace ex_mixed 0 = native_trace ex_mixed 0.
+Proof. vm_compute. split; reflexivity. Qed.
+(* without closure the bundle model really differs: wrapped 3 importing a non-wrapped file *)
+Example ex_mixed_needs_closure :
+  let g := [mkEmod true false [] [] [1%nat] false; mkEmod true false [2%nat] [] [] true; mkEmod true false [] [] [] false] in
+  wrap_consistent g = false /\ bundle_trace g 0 <> native_trace g 0.
+Proof. vm_compute. split; [reflexivity|discriminate]. Qed.
